@@ -105,9 +105,9 @@ pub fn run_prop(ctx: &Ctx) -> PropReport {
     let mut rep = PropReport::new("C11", "exploration");
     let tier = ctx.tier;
     let rule = "C01 topologies + 1-8 set_input_delay calls (delay 0..=6) on random local players: before/around the first frame, in quick succession (decrease-then-increase before the queue drained), at arbitrary moments incl. while stalled; oracle: the owner's, every remote's and every spectator's inputs for that player equal the reference model (increase repeats the last input for the opened frames, decrease drops submissions until caught up), no panic, nothing stranded in outgoing_local_inputs after settling, everybody keeps advancing; non-trivial = >=1 change applied and >50 frames confirmed everywhere";
-    rep.part(|| run_random(ctx, "single_local", rule, || gen(tier, false, false), ctx.tier.pick(1500, 6000), eval));
-    rep.part(|| run_random(ctx, "with_spectators", rule, || gen(tier, false, true), ctx.tier.pick(1000, 4000), eval));
-    rep.part(|| run_random(ctx, "multi_local", rule, || gen(tier, true, true), ctx.tier.pick(1500, 6000), eval));
+    rep.part(|| run_random(ctx, "single_local", rule, || gen(tier, false, false), ctx.tier.pick(4000, 16000), eval));
+    rep.part(|| run_random(ctx, "with_spectators", rule, || gen(tier, false, true), ctx.tier.pick(3000, 12000), eval));
+    rep.part(|| run_random(ctx, "multi_local", rule, || gen(tier, true, true), ctx.tier.pick(4000, 16000), eval));
     rep.assumptions = vec!["the reference model of the delayed input stream is the documented semantics of set_input_delay".into()];
     rep
 }
